@@ -50,6 +50,20 @@ def do_case(ctx, inp):
             ctx.fail("wrong-constant", {"id": k, "got": [lo, hi], "want": want[k], "interpretation": interp_json(I)})
     if (int(top.lower), int(top.upper)) != (want[t["id"]],) * 2 or t["id"] not in res or res[t["id"]] != top:
         ctx.fail("evaluate-vs-top-entry", {"evaluate": [int(top.lower), int(top.upper)], "want": want[t["id"]]})
+    if inp.get("edit_results"):
+        # what an evaluation returns is the caller's: the Bounds of an earlier result are edited in place (a caller widening
+        # them for a report) — the next evaluation computes its own
+        for b_ in list(res.values()) + [top]:
+            try:
+                b_.lower, b_.upper = 0, 1
+            except Exception:
+                pass
+        ctx.tags["earlier-result-edited-in-place"] += 1
+        res2 = copy.deepcopy(o).evaluate_propositions(render_interp(ctx.rng, I))
+        got2 = sorted((k, int(b.lower), int(b.upper)) for k, b in res2.items())
+        if got2 != got:
+            d = [(x, y) for x, y in zip(got, got2) if x != y][:3]
+            ctx.fail("evaluation-after-an-earlier-result-was-edited-differs", {"first_differences_before_after": d, "interpretation": interp_json(I)})
 
 
 def run(ctx):
@@ -89,7 +103,7 @@ def run(ctx):
             # values may lie outside a leaf's declared bounds: the interpretation wins (variable.evaluate's documented behaviour)
             # (a sub-proposition id may be named with the non-fixing range (0, 1): it is then computed from its children)
             I = gen_interp(ctx.rng, t, total=True, ranges=False, in_bounds=ctx.rng.random() < 0.6, compound_ranges=ctx.rng.random() < 0.5)
-            do_case(ctx, {"ast": a, "I": {k: list(v) for k, v in I.items()}})
+            do_case(ctx, {"ast": a, "I": {k: list(v) for k, v in I.items()}, **({"edit_results": True} if ctx.rng.random() < 0.12 else {})})
         if t["lo"] == t["hi"] and t["k"] == "node":
             # the model's OWN variable is declared constant and the interpretation says otherwise about it (or the same):
             # an interpretation entry replaces declared bounds, for the top node as for any other
